@@ -289,13 +289,20 @@ def h_frontdoor(E, which):
 
 
 INVALID = ['1\t2', 'a\tb', '1.\t5', '1e\t3', '1\n2', 'a\rb', '1\xa0+\xa02', 'a\u2003b', 'a++b', 'a**b', 'a(b)c', '()', 'f()', 'a+', '*a', 'a^^b', 'a||', '|a', 'a|b', 'a---b', 'a^--b', '2 . 3 . 4', 'a,b', 'a;b', 'a=b', 'a!',
-           '[', '[]', '[1,]', 'a^', '--a', 'a+*b', 'sin()', '(a', 'a)', 'a×b', '١', 'a−b', '1e+', '.', '1..2', 'a.b']
+           '[', '[]', '[1,]', 'a^', '--a', 'a+*b', 'sin()', '(a', 'a)', 'a×b', '١', 'a−b', '1e+', '.', '1..2', 'a.b',
+           '1_000', '2e1_0', '1_0.5', '١٢٣', '１２', '1２', '1__0', '1e1_0', '0_0', '1٢', ' 1_0 ', '1_0\n']
 
 
 def h_invalid(E, idx):
-    from mitxgraders.helpers.calc.expressions import parse
+    from mitxgraders.helpers.calc.expressions import parse, evaluator, DEFAULT_FUNCTIONS, DEFAULT_SUFFIXES
     from mitxgraders.helpers.calc.exceptions import UnableToParse, UnbalancedBrackets
     s = INVALID[idx]
+    # the public evaluation entry point must refuse the string just as the parser does (no shortcut around the grammar)
+    try:
+        v, _ = evaluator(s, {'a': 1.5, 'b': 2.5, 'c': 3.5}, DEFAULT_FUNCTIONS, DEFAULT_SUFFIXES, max_array_dim=1)
+        E.check('outside-grammar-rejected-by-the-evaluator-too', False)
+    except (UnableToParse, UnbalancedBrackets):
+        E.check('outside-grammar-rejected-by-the-evaluator-too', True)
     try:
         parse(s)
         E.check('outside-grammar-rejected-with-parse-error', False)
@@ -303,6 +310,29 @@ def h_invalid(E, idx):
     except (UnableToParse, UnbalancedBrackets) as e:
         E.check('outside-grammar-rejected-with-parse-error', True)
         return type(e).__name__
+
+
+LITERALS = ['12', '1.5e-3', '1e5', '00012', '1e999', '9' * 400, '1e-400', '12.', '.5', '1E3', '2k', '50%', '1 000', '3.0e+2', '0', '0.0', '1e0']
+
+
+def h_literal_frontdoor(E, idx):
+    """a bare number goes through the same grammar and the same number evaluation as everything else: the public evaluator gives exactly what
+    parse + eval of a fresh parser give (value or error class), also for huge and tiny exponents"""
+    from mitxgraders.helpers.calc.expressions import evaluator, MathParser, DEFAULT_FUNCTIONS, DEFAULT_SUFFIXES
+    from mitxgraders.exceptions import MITxError
+    s = LITERALS[idx]
+    sfx = dict(DEFAULT_SUFFIXES, k=1000.0)
+
+    def outcome(f):
+        try:
+            v = f()
+            return ('value', repr(float(v)) if not isinstance(v, complex) else repr(v))
+        except MITxError as e:
+            return ('error', type(e).__name__)
+    a = outcome(lambda: evaluator(s, {}, DEFAULT_FUNCTIONS, sfx)[0])
+    b = outcome(lambda: MathParser().parse(s.replace(' ', '')).eval({}, DEFAULT_FUNCTIONS, sfx)[0])
+    E.check('evaluator-is-parse-then-eval', a == b)
+    return a[0]
 
 
 # ------------------------------------------------------------------------------------------------ O3: the accepted language
@@ -575,6 +605,8 @@ def harnesses(tier):
         add(h_undefined, 'undefined', dict(name=nm), 'only x defined')
     for w in ('none', 'blank', 'spaces', 'array'):
         add(h_frontdoor, 'frontdoor', dict(which=w), '')
+    for i in range(len(LITERALS)):
+        add(h_literal_frontdoor, 'literal_frontdoor', dict(i=i), LITERALS[i][:20], validate=False)
     for i in range(len(INVALID)):
         add(h_invalid, 'invalid', dict(i=i), repr(INVALID[i]))
     add(h_language, 'language', dict(N=4 if T else 3), 'all Unicode strings up to that length: accepted iff in the documented grammar', max_paths=300000 if T else None)
